@@ -386,6 +386,12 @@ class Program:
                     return f
             return None
         hits = [f for f in self.all_functions() if f.short == qual]
+        if len(hits) > 1 and "." not in qual:
+            # several module-level functions of that name: the one the package exports at its top level is the one users call
+            root = self.modules.get(PKG)
+            r = self.resolve_name(root, qual) if root is not None else None
+            if isinstance(r, FunctionInfo) and any(r is h for h in hits):
+                return r
         return hits[0] if len(hits) == 1 else None
 
     def require_func(self, qual: str, rule: str) -> FunctionInfo:
